@@ -556,3 +556,7 @@ Section HistoryProofs.
              _ _ _ _ _ fdata out i d Hb H Hi Ha).
   Qed.
 End HistoryProofs.
+
+Lemma dlf_kind_default_lemma (signal : Z) :
+  dlf_kind signal None = if Z.ltb signal 0 then Cos else Sin.
+Proof. unfold dlf_kind. destruct (Z.ltb_spec 0 signal), (Z.ltb_spec signal 0); auto; lia. Qed.
